@@ -498,10 +498,7 @@ func VerifHamtMissingShards() {
 		verifrt.Reach("end")
 		return
 	}
-	injected := verifmodel.ErrNotFound
-	if verifrt.Choose(2) == 1 {
-		injected = errIO
-	}
+	injected := loadFailure()
 	bh.st.FailLoad = func(key string, nth int) error {
 		if missing[key] {
 			return injected
